@@ -60,6 +60,9 @@ impl ControlMessage {
         let nr = unsafe { reader.read_u16_be_unchecked() };
 
         const FIXED_LENGTH: usize = 12;
+        if (length as usize) < FIXED_LENGTH {
+            return Err(vec![DecodeError::IncompleteControlMessageHeader]);
+        }
         if length as usize > reader.len() + FIXED_LENGTH {
             return Err(vec![DecodeError::IncompleteControlMessagePayload]);
         }
